@@ -232,3 +232,23 @@ def bystander(F, rng, s, nops=None):
             oname = 'raised'
         tags.append(rname + '.' + oname)
     return '+'.join(tags)
+
+
+def arith(rng, s):
+    """A sample whose values went through arithmetic before (as after de-binning, dithering, background subtraction or a
+    unit change done by hand): a float copy of ``s`` with fractional values, same channels and settings.  -> (sample, tag)."""
+    t = s.astype(float)
+    op = int(rng.integers(4))
+    if op == 0:
+        t += rng.uniform(0.0, 0.999, size=t.shape)       # dithered counts
+        tag = 'dithered'
+    elif op == 1:
+        t += 0.5                                         # bin centres
+        tag = 'bin-centres'
+    elif op == 2:
+        t *= 0.999                                       # rescaled
+        tag = 'rescaled'
+    else:
+        t -= 0.25 * (np.asarray(t) > 1)                  # a small background subtracted
+        tag = 'background'
+    return t, tag
